@@ -300,3 +300,27 @@ Print Assumptions c08_from_head.
 Print Assumptions c08_length_end_to_end.
 Print Assumptions c08_close_end_to_end.
 Print Assumptions c08_end_to_end_nonvacuous.
+
+(* ================================================================== the code's own arithmetic (translated fragments) *)
+(** The expressions that size one read of a Content-Length body and of a close-delimited body are translated from src/body.rs
+    on every run (theories/Gen.v, FRAGMENTS of tools/rs2coq.py); proofs/Gen_equiv_frag.v proves them equal to "min(input, output
+    space, remaining)" / "min(input, output space)" for all arguments and to what the model's reader computes. *)
+From Hoot Require Import Gen.
+From Hoot.proofs Require Import Gen_equiv_frag.
+Theorem c08_code_read_limit : forall src_len dst_len left, gen_read_limit_n src_len dst_len left = N.min (N.min src_len dst_len) left.
+Proof. exact gen_read_limit_n_spec. Qed.
+Theorem c08_code_read_unlimit : forall src_len dst_len, gen_read_unlimit_n src_len dst_len = N.min src_len dst_len.
+Proof. exact gen_read_unlimit_n_spec. Qed.
+Theorem c08_code_length_is_model : forall lft src room stop,
+  reader_read (RLength lft) src room stop =
+  Ok (RLength (lft - gen_read_limit_n (len src) room lft), gen_read_limit_n (len src) room lft,
+      take (gen_read_limit_n (len src) room lft) src).
+Proof. exact reader_read_length_gen. Qed.
+Theorem c08_code_close_is_model : forall src room stop,
+  reader_read RClose src room stop =
+  Ok (RClose, gen_read_unlimit_n (len src) room, take (gen_read_unlimit_n (len src) room) src).
+Proof. exact reader_read_close_gen. Qed.
+Print Assumptions c08_code_read_limit.
+Print Assumptions c08_code_read_unlimit.
+Print Assumptions c08_code_length_is_model.
+Print Assumptions c08_code_close_is_model.
